@@ -849,6 +849,22 @@ example : P_c03Order good24 := by
     · rintro i hi ⟨p, hp, _, hm⟩
       rcases p with _|_|_|_|_|p <;> simp [good24, obsAt] at hp hm <;> omega
 
+/-- a call whose context is cancelled while blocked in Await, and a read error that cancels a handler context -/
+def good4b : Trace :=
+  [(.ecall, {oc := [1]}),
+   (.ectx 1, {oc := [1], parked := [.r 1]}),
+   (.read (.call 7), {oc := [1], parked := [.r 1]}),
+   (.rx, {readErr := true, x := [(0, .read)]})]
+
+example : P_c04CtxStuck good4b := by
+  intro k hk n he hp
+  rcases k with _|_|_|_|k <;> simp [good4b, evAt, evOf, obsAt] at hk he ⊢
+  exact .inl he.symm
+example : P_c04ReadCause good4b := by
+  intro k hk r h1 h2 _
+  refine ⟨3, ?_, by simp [good4b, evAt, evOf]⟩
+  rcases k with _|_|_|_|k <;> simp [good4b, obsAt, before] at hk h1 h2 ⊢
+
 /-! ### the monitor fires (and, by soundness, the clause fails) on tiny bad traces -/
 
 example : ¬ P_c05TcTwice ([] ++ [(.eclose, {tc := 2})]) := sound_c05TcTwice _ _ _ (by decide)
